@@ -59,6 +59,16 @@ fn res_xpub(r: Result<ExtendedPublicKey, bsv::BSVErrors>) -> String {
     }
 }
 
+
+/// every public entry point has a `*_impl` twin that is public too: both are called and must agree
+fn both(a: String, b: String) -> String {
+    if a == b {
+        a
+    } else {
+        "OK:impl-variant-differs".into()
+    }
+}
+
 enum Parg<T> {
     Bad,
     Invalid,
@@ -156,58 +166,125 @@ pub fn run(op: &str, args: &[String]) -> Option<String> {
                 Some(b) => b,
                 None => return bad(),
             };
-            res_xprv(ExtendedPrivateKey::from_seed(&seed))
+            both(res_xprv(ExtendedPrivateKey::from_seed(&seed)), res_xprv(ExtendedPrivateKey::from_seed_impl(&seed)))
         }
         "xprv.seed_path" => {
             let (seed, path) = match (arg_bytes(args, 0), arg_str(args, 1)) {
                 (Some(b), Some(p)) => (b, p),
                 _ => return bad(),
             };
-            res_xprv(ExtendedPrivateKey::from_seed(&seed).and_then(|x| x.derive_from_path(&path)))
+            both(
+                res_xprv(ExtendedPrivateKey::from_seed(&seed).and_then(|x| x.derive_from_path(&path))),
+                res_xprv(ExtendedPrivateKey::from_seed_impl(&seed).and_then(|x| x.derive_from_path_impl(&path))),
+            )
         }
         "xpub.seed_path" => {
             let (seed, path) = match (arg_bytes(args, 0), arg_str(args, 1)) {
                 (Some(b), Some(p)) => (b, p),
                 _ => return bad(),
             };
-            res_xpub(ExtendedPublicKey::from_seed(&seed).and_then(|x| x.derive_from_path(&path)))
+            both(
+                res_xpub(ExtendedPublicKey::from_seed(&seed).and_then(|x| x.derive_from_path(&path))),
+                res_xpub(ExtendedPublicKey::from_seed_impl(&seed).and_then(|x| x.derive_from_path_impl(&path))),
+            )
+        }
+        "xprv.from_random" | "xpub.from_random" => {
+            if !args.is_empty() {
+                return bad();
+            }
+            // behavioural: depth;index;fingerprint; string reads back to the same fields; two calls differ
+            if op == "xprv.from_random" {
+                match (ExtendedPrivateKey::from_random(), ExtendedPrivateKey::from_random_impl()) {
+                    (Ok(x), Ok(y)) => {
+                        let back = x.to_string().and_then(|s| ExtendedPrivateKey::from_string(&s));
+                        let same = matches!(&back, Ok(b) if show_xprv(b) == show_xprv(&x));
+                        let differ = x.get_private_key().to_bytes() != y.get_private_key().to_bytes();
+                        format!("OK:{};{};{};{};{}", x.get_depth(), x.get_index(), hex::encode(x.get_parent_fingerprint()), same as u8, differ as u8)
+                    }
+                    _ => "ERR".into(),
+                }
+            } else {
+                match (ExtendedPublicKey::from_random(), ExtendedPublicKey::from_random_impl()) {
+                    (Ok(x), Ok(y)) => {
+                        let back = x.to_string().and_then(|s| ExtendedPublicKey::from_string(&s));
+                        let same = matches!(&back, Ok(b) if show_xpub(b) == show_xpub(&x));
+                        let differ = show_xpub(&x) != show_xpub(&y);
+                        format!("OK:{};{};{};{};{}", x.get_depth(), x.get_index(), hex::encode(x.get_parent_fingerprint()), same as u8, differ as u8)
+                    }
+                    _ => "ERR".into(),
+                }
+            }
+        }
+        "xpub.from_seed" => {
+            let seed = match arg_bytes(args, 0) {
+                Some(b) => b,
+                None => return bad(),
+            };
+            both(res_xpub(ExtendedPublicKey::from_seed(&seed)), res_xpub(ExtendedPublicKey::from_seed_impl(&seed)))
+        }
+        "xprv.string_derive" => {
+            let (s, i) = match (arg_str(args, 0), arg_index(args, 1)) {
+                (Some(s), Some(i)) => (s, i),
+                _ => return bad(),
+            };
+            // the object returned by from_string (with its cached public key) is used directly
+            res_xprv(ExtendedPrivateKey::from_string(&s).and_then(|x| x.derive(i)))
+        }
+        "xpub.string_derive" => {
+            let (s, i) = match (arg_str(args, 0), arg_index(args, 1)) {
+                (Some(s), Some(i)) => (s, i),
+                _ => return bad(),
+            };
+            res_xpub(ExtendedPublicKey::from_string(&s).and_then(|x| x.derive(i)))
         }
         "xprv.from_string" => {
             let s = match arg_str(args, 0) {
                 Some(s) => s,
                 None => return bad(),
             };
-            res_xprv(ExtendedPrivateKey::from_string(&s))
+            both(res_xprv(ExtendedPrivateKey::from_string(&s)), res_xprv(ExtendedPrivateKey::from_string_impl(&s)))
         }
         "xpub.from_string" => {
             let s = match arg_str(args, 0) {
                 Some(s) => s,
                 None => return bad(),
             };
-            res_xpub(ExtendedPublicKey::from_string(&s))
+            both(res_xpub(ExtendedPublicKey::from_string(&s)), res_xpub(ExtendedPublicKey::from_string_impl(&s)))
         }
         "xprv.to_string" => match arg_xprv(args) {
             Parg::Bad => return bad(),
             Parg::Invalid => "ERR".into(),
-            Parg::Good(x) => match x.to_string() {
-                Ok(s) => format!("OK:{}", s),
-                Err(_) => "ERR".into(),
-            },
+            Parg::Good(x) => both(
+                match x.to_string() {
+                    Ok(s) => format!("OK:{}", s),
+                    Err(_) => "ERR".into(),
+                },
+                match x.to_string_impl() {
+                    Ok(s) => format!("OK:{}", s),
+                    Err(_) => "ERR".into(),
+                },
+            ),
         },
         "xpub.to_string" => match arg_xpub(args) {
             Parg::Bad => return bad(),
             Parg::Invalid => "ERR".into(),
-            Parg::Good(x) => match x.to_string() {
-                Ok(s) => format!("OK:{}", s),
-                Err(_) => "ERR".into(),
-            },
+            Parg::Good(x) => both(
+                match x.to_string() {
+                    Ok(s) => format!("OK:{}", s),
+                    Err(_) => "ERR".into(),
+                },
+                match x.to_string_impl() {
+                    Ok(s) => format!("OK:{}", s),
+                    Err(_) => "ERR".into(),
+                },
+            ),
         },
         "xpub.from_xprv" => match arg_xprv(args) {
             Parg::Bad => return bad(),
             Parg::Invalid => "ERR".into(),
             Parg::Good(x) => show_xpub(&ExtendedPublicKey::from_xpriv(&x)),
         },
-        "xprv.derive" | "xprv.neuter_derive" => match arg_xprv(args) {
+        "xprv.derive" | "xprv.neuter_derive" | "xpub.from_xprv_derive" => match arg_xprv(args) {
             Parg::Bad => return bad(),
             Parg::Invalid => "ERR".into(),
             Parg::Good(x) => {
@@ -216,9 +293,12 @@ pub fn run(op: &str, args: &[String]) -> Option<String> {
                     None => return bad(),
                 };
                 if op == "xprv.derive" {
-                    res_xprv(x.derive(i))
-                } else {
+                    both(res_xprv(x.derive(i)), res_xprv(x.derive_impl(i)))
+                } else if op == "xprv.neuter_derive" {
                     res_xpub(x.derive(i).map(|c| ExtendedPublicKey::from_xpriv(&c)))
+                } else {
+                    let n = ExtendedPublicKey::from_xpriv(&x);
+                    both(res_xpub(n.derive(i)), res_xpub(n.derive_impl(i)))
                 }
             }
         },
@@ -230,7 +310,7 @@ pub fn run(op: &str, args: &[String]) -> Option<String> {
                     Some(p) => p,
                     None => return bad(),
                 };
-                res_xprv(x.derive_from_path(&p))
+                both(res_xprv(x.derive_from_path(&p)), res_xprv(x.derive_from_path_impl(&p)))
             }
         },
         "xpub.derive" => match arg_xpub(args) {
@@ -241,7 +321,7 @@ pub fn run(op: &str, args: &[String]) -> Option<String> {
                     Some(i) => i,
                     None => return bad(),
                 };
-                res_xpub(x.derive(i))
+                both(res_xpub(x.derive(i)), res_xpub(x.derive_impl(i)))
             }
         },
         "xpub.derive_path" => match arg_xpub(args) {
@@ -252,7 +332,7 @@ pub fn run(op: &str, args: &[String]) -> Option<String> {
                     Some(p) => p,
                     None => return bad(),
                 };
-                res_xpub(x.derive_from_path(&p))
+                both(res_xpub(x.derive_from_path(&p)), res_xpub(x.derive_from_path_impl(&p)))
             }
         },
         _ => return None,
